@@ -69,6 +69,43 @@ def converter_coverage(run: Run, model: PyModel) -> None:
             run.check("C05.R1", f"{cls}.{meth} maps {', '.join(kids)}", not missing, f"{cls}.{meth}", f"missing {missing}", f"{cls}.{meth} does not map {missing}: that part of the page structure is lost in the index", file=FILE, node=f.node)
     fp = model.func(f"{PC}.PageConverter.from_entity")
     run.check("C05.R1", "the page converter stores the section-less notes (h0) as well", "h0" in ast.unparse(fp.node), "PageConverter.from_entity", "h0", "notes outside any H1 section are not indexed", file=FILE, node=fp.node)
+    # inclusion is unconditional: the only admissible condition on h0 is its presence; child loops do not filter
+    param = fp.params()[1].arg if len(fp.params()) > 1 else "page"
+    n_h0 = 0
+    for n in ast.walk(fp.node):
+        test = n.test if isinstance(n, (ast.If, ast.IfExp, ast.While)) else None
+        if test is None or f"{param}.h0" not in ast.unparse(test):
+            continue
+        n_h0 += 1
+        t = test
+        if isinstance(t, ast.Compare) and len(t.ops) == 1 and isinstance(t.ops[0], (ast.IsNot, ast.Is)) and isinstance(t.comparators[0], ast.Constant) and t.comparators[0].value is None:
+            t = t.left
+        if isinstance(t, ast.UnaryOp) and isinstance(t.op, ast.Not):
+            t = t.operand
+        run.check("C05.R1", "the section-less part of a page (h0) is indexed whenever it exists", ast.unparse(t) == f"{param}.h0", "PageConverter.from_entity", test,
+                  f"h0 is stored only when `{ast.unparse(test)}`: a page whose section-less part fails the extra condition (e.g. top-level H2 sections without loose items) loses those notes in the index",
+                  file=FILE, node=n)
+    run.floor("h0 inclusion conditions", n_h0, 1)
+    n_loops = 0
+    for cls in ("PageConverter", "_H1Converter", "_H2Converter", "_H3Converter", "_H4Converter", "_BlockConverter"):
+        for meth in ("from_entity", "to_entity"):
+            f = model.func(f"{PC}.{cls}.{meth}")
+            for n in walk_no_nested(f.node):
+                if isinstance(n, ast.For):
+                    n_loops += 1
+                    skips = [x for x in ast.walk(n) if isinstance(x, (ast.Continue, ast.Break))]
+                    run.check("C05.R1", f"{cls}.{meth}: the loop over `{ast.unparse(n.iter)[:40]}` converts every element", not skips, f"{cls}.{meth}", n.iter,
+                              f"the loop over `{ast.unparse(n.iter)}` skips elements (continue/break): part of the page is not carried over", file=FILE, node=n)
+                elif isinstance(n, (ast.ListComp, ast.GeneratorExp, ast.SetComp)):
+                    n_loops += 1
+                    flt = [g for g in n.generators if g.ifs]
+                    run.check("C05.R1", f"{cls}.{meth}: `{ast.unparse(n)[:50]}` converts every element", not flt, f"{cls}.{meth}", n,
+                              f"`{ast.unparse(n)}` filters elements: part of the page is not carried over", file=FILE, node=n)
+                elif isinstance(n, ast.Subscript) and isinstance(n.slice, ast.Slice) and isinstance(n.ctx, ast.Load):
+                    base = ast.unparse(n.value)
+                    if any(base.endswith(k) for k in ("h1s", "h2s", "h3s", "h4s", "blocks", "notes")):
+                        run.refuted("C05.R1", f"{cls}.{meth}", n, f"`{ast.unparse(n)}` takes a slice of a child collection: the rest is not carried over", file=FILE, node=n)
+    run.floor("converter child loops", n_loops, 8)
 
 
 def check(run: Run) -> None:
